@@ -87,7 +87,9 @@ impl Property for C18 {
          observable content (existence, range(..) bytes, last_position) must be identical in both runs, and q's \
          content must not change across any call addressed to another queue. evaluations = (queue, comparison point) \
          pairs. non-trivial = a call to another queue unlinked >= 1 file while q retained records; distinct = \
-         hash(q, concrete history). Crash variants (histories run under Always(Flush|FlushAndFsync)): crash points are \
+         hash(q, concrete history). A deterministic campaign (16 / 256 variants) adds crafted content: a record of queue b whose \
+         tail in the next WAL file is the byte image of an entry for queue a; b is truncated, the first file is collected, \
+         the log restarted; a must not change. Crash variants (histories run under Always(Flush|FlushAndFsync)): crash points are \
          ENUMERATED over the recorded I/O trace (every effect boundary + byte cuts) and every queue the in-flight call does \
          not address must recover exactly as after its own completed calls; non-trivial there = crash strictly inside a \
          call to another queue that unlinks files while q retains records."
@@ -105,6 +107,14 @@ impl Property for C18 {
         }
     }
 
+    /// Isolation against crafted content (deterministic, sharded; shared with C08's decoy campaign, mode C): a record of
+    /// queue "b" whose tail — the part written into the next WAL file — is the byte image of an entry addressed to
+    /// another queue; "b" is truncated, the first file garbage-collected, the log restarted: the other queue must not
+    /// change.
+    fn fixed_work(&self, env: &mut Env, shard: u32, shards: u32) -> Result<(), CaseError> {
+        super::c08::C08.orphan_tail_campaign(env, shard, shards)
+    }
+
     fn strategy(&self, tier: Tier) -> BoxedStrategy<Case> {
         super::case_strategy(
             &gen_cfg(tier),
@@ -114,6 +124,9 @@ impl Property for C18 {
     }
 
     fn run(&self, case: &Case, env: &mut Env) -> Result<(), CaseError> {
+        if let Some(variant) = case.extra.as_ref().and_then(|extra| extra.get("orphan_variant")).and_then(|value| value.as_u64()) {
+            return super::c08::C08.orphan_tail_campaign(env, variant as u32 % 256, 256);
+        }
         let dir = env.scratch.fresh("c18-full");
         let mut exec = Exec::new(&dir, case.policy)?;
         let mut ops = case.ops.clone();
